@@ -25,7 +25,8 @@ def run(d):
         for fn in ('patch.diff', 'meta.json'):
             shutil.copy(os.path.join(d, fn), os.path.join(keep, fn))
     S.ensure_scratch()
-    rc, out = S.sh(f'git apply {os.path.join(keep, "patch.diff")}', cwd=S.SCRATCH)
+    pf = os.path.join(keep, 'patch.diff')
+    rc, out = S.sh(f'git apply {pf} || git apply --3way {pf}', cwd=S.SCRATCH)
     if rc:
         res = {'change': name, 'property': prop, 'applied': False, 'note': out[-300:]}
     else:
